@@ -468,6 +468,9 @@ fn c18_check(rep: &Report, c: &mut Counters, s: &str, model_check: bool) {
     }
     bump(c, "strings", 1);
     let escaped = wax::escape(s);
+    // long strings are shown abbreviated in messages (the replay file holds them in full)
+    let short_s: String = if s.chars().count() > 60 { format!("{}... ({} bytes)", s.chars().take(40).collect::<String>(), s.len()) } else { s.to_string() };
+    let short_e: String = if escaped.chars().count() > 60 { format!("{}... ({} bytes)", escaped.chars().take(40).collect::<String>(), escaped.len()) } else { escaped.to_string() };
     if s.len() == 3 && s.starts_with('*') {
         rep.sample(json!({"string": s, "escaped": escaped}));
     }
@@ -476,8 +479,8 @@ fn c18_check(rep: &Report, c: &mut Counters, s: &str, model_check: bool) {
     if !has_meta && escaped.as_ref() != s {
         rep.alarm(Alarm {
             class: None,
-            key: format!("unchanged {:?}", s),
-            msg: format!("escape({:?}) = {:?} although the string has no meta-character", s, escaped),
+            key: format!("unchanged {:?}", short_s),
+            msg: format!("escape({:?}) = {:?} although the string has no meta-character", short_s, short_e),
             case: case("unchanged"),
         });
     }
@@ -486,8 +489,8 @@ fn c18_check(rep: &Report, c: &mut Counters, s: &str, model_check: bool) {
         model::Built::Err(err) => {
             rep.alarm(Alarm {
                 class: None,
-                key: format!("build {:?}", s),
-                msg: format!("escape({:?}) = {:?} does not build: {}", s, escaped, err),
+                key: format!("build {:?}", short_s),
+                msg: format!("escape({:?}) = {:?} does not build: {}", short_s, short_e, err),
                 case: case("build"),
             });
             return;
@@ -495,8 +498,8 @@ fn c18_check(rep: &Report, c: &mut Counters, s: &str, model_check: bool) {
         model::Built::Panic(p) => {
             rep.alarm(Alarm {
                 class: None,
-                key: format!("build {:?}", s),
-                msg: format!("Glob::new(escape({:?})) panics: {}", s, p),
+                key: format!("build {:?}", short_s),
+                msg: format!("Glob::new(escape({:?})) panics: {}", short_s, p),
                 case: case("build"),
             });
             return;
@@ -507,8 +510,8 @@ fn c18_check(rep: &Report, c: &mut Counters, s: &str, model_check: bool) {
         other => {
             rep.alarm(Alarm {
                 class: None,
-                key: format!("text {:?}", s),
-                msg: format!("Glob::new(escape({:?})).text() = {:?}, expected invariant {:?}", s, other, s),
+                key: format!("text {:?}", short_s),
+                msg: format!("Glob::new(escape({:?})).text() = {:?}, expected invariant {:?}", short_s, other, short_s),
                 case: case("text"),
             });
         },
@@ -516,8 +519,8 @@ fn c18_check(rep: &Report, c: &mut Counters, s: &str, model_check: bool) {
     if !g.is_match(s) {
         rep.alarm(Alarm {
             class: None,
-            key: format!("self {:?}", s),
-            msg: format!("Glob::new(escape({:?})) = `{}` does not match {:?}", s, escaped, s),
+            key: format!("self {:?}", short_s),
+            msg: format!("Glob::new(escape({:?})) = `{}` does not match {:?}", short_s, short_e, short_s),
             case: case("self"),
         });
     }
@@ -537,8 +540,8 @@ fn c18_check(rep: &Report, c: &mut Counters, s: &str, model_check: bool) {
                 if g.is_match(p.as_str()) {
                     rep.alarm(Alarm {
                         class: None,
-                        key: format!("other {:?}", s),
-                        msg: format!("Glob::new(escape({:?})) = `{}` also matches {:?}", s, escaped, p),
+                        key: format!("other {:?}", short_s),
+                        msg: format!("Glob::new(escape({:?})) = `{}` also matches {:?}", short_s, short_e, p),
                         case: json!({"kind": "escape", "string": s, "check": "other", "path": p}),
                     });
                     break;
@@ -629,6 +632,32 @@ pub fn c18(tier: Tier) -> i32 {
         }
         rep.merge(&c);
     });
+    // S4: long texts below the size limit of invariant text (65 536 bytes): runs of one
+    // character (every meta, a literal, a multi-byte literal) and mixtures, as one component and
+    // spread over components; API checks only (the automaton of a 64 KiB literal is not explored)
+    {
+        let mut chars: Vec<char> = syntax::METAS.to_vec();
+        chars.extend(['a', '-', '!', '金']);
+        let mut long: Vec<String> = vec![];
+        for ch in &chars {
+            for bytes in [16384usize, 21846, 32767, 32768, 40000, 65535] {
+                long.push(std::iter::repeat(*ch).take(bytes / ch.len_utf8()).collect());
+            }
+        }
+        for unit in ["a*", "[a]", "{a,b}", "a?/", "*/", "(?i)a"] {
+            for bytes in [32768usize, 65535] {
+                long.push(unit.repeat(bytes / unit.len()));
+            }
+        }
+        rep.add("s4_long_texts", long.len() as u64);
+        long.par_iter().for_each(|s| {
+            let mut c = Counters::new();
+            if guard(|| c18_check(&rep, &mut c, s, false)).is_err() {
+                bump(&mut c, "skipped_panics", 1);
+            }
+            rep.merge(&c);
+        });
+    }
     // contextual meta character: a character that acts as a meta-character inside a class
     // (there `[a{c}z]` is not the three-character class) must be reported as contextual meta
     for cp in 0x20u32..0x7f {
